@@ -10,7 +10,7 @@
    FunctionalExtensionality.functional_extensionality_dep) through Flocq. *)
 From Coq Require Import ZArith Reals List Bool.
 From Flocq Require Import Core.Core IEEE754.BinarySingleNaN.
-From GV Require Import Base.W64 Base.F64 Num.Model Num.Spec Num.IntProofs Num.MixedCmp Num.CmpOrder Num.ConvProofs Num.StrSpec Num.StrModel Num.StrProofs.
+From GV Require Import Base.W64 Base.F64 Num.Model Num.Spec Num.IntProofs Num.MixedCmp Num.CmpOrder Num.ConvProofs Num.StrSpec Num.StrModel Num.StrProofs Num.ModProofs.
 Open Scope Z_scope.
 
 (* ---- integer arithmetic wraps around modulo 2^64 ---- *)
@@ -218,3 +218,22 @@ Print Assumptions C02_math_fmod_int_props.
 Theorem C02_tostring_tonumber_int : forall n, in64 n -> s_str2number (int_to_dec n) = Some (NInt n).
 Proof. exact tostring_tonumber_int. Qed.
 Print Assumptions C02_tostring_tonumber_int.
+
+(* ---- float modulo: golua's math.Mod-then-adjust (modFloat) is, for ALL binary64 operands and bit for bit
+   (sign of zero included), the manual's a - floor(a/b)*b computed exactly and rounded once ---- *)
+Theorem C02_mod_float_spec : forall x y, modFloat x y = s_mod_float x y.
+Proof. exact mod_float_spec. Qed.
+Print Assumptions C02_mod_float_spec.
+
+Theorem C02_fmod_floor_value : forall sx mx ex Bx sy my ey By,
+  let a := B754_finite sx mx ex Bx : f64 in let b := B754_finite sy my ey By : f64 in
+  B2R (fmod_floor_exact a b) =
+    round radix2 fexp64 ZnearestE (B2R a - IZR (Zfloor (B2R a / B2R b)) * B2R b) /\
+  is_finite (fmod_floor_exact a b) = true.
+Proof. exact fmod_floor_value. Qed.
+Print Assumptions C02_fmod_floor_value.
+
+(* the strconv hypotheses are satisfiable: ParseInt and ParseUint by reference implementations for all inputs *)
+Theorem C02_ParseInt_ok_sat : ParseInt_ok ParseInt_ref.
+Proof. exact ParseInt_ok_sat. Qed.
+Print Assumptions C02_ParseInt_ok_sat.
